@@ -976,6 +976,7 @@ func gen(seed uint64, tier string) {
 	// the strata added in wave 2 draw from their own streams, so that the cases of the older strata stay what they were
 	genTwins(out, vproto.NewRng(seed^0x7477), tier)
 	genInterleaved(out, vproto.NewRng(seed^0x696c), tier)
+	genCloseParallels(out, vproto.NewRng(seed^0x6370), tier)
 	names := []string{"longlat", "merc", "lcc", "aea", "eqdc", "tmerc", "utm", "krovak"}
 	for _, name := range names {
 		for i := 0; i < nParam; i++ {
